@@ -61,9 +61,20 @@ func genC08(seed int64, tier string) *Scenario {
 	}
 	sc.Knobs["faulty"], sc.Knobs["anomalies"] = faulty, anomalies
 	sc.Plugin = r.Intn(3) == 0
+	// Documents outside the workspace are NOT part of C08's histories: while such a document is open
+	// the server analyses it together with the workspace and closing it does not re-run what depended
+	// on it (findings/C08-outside-document-closed-class-still-resolved.json), which shows up under a
+	// dozen different signatures; see DESIGN §7.  C02, C10 and C01 do use them.
+	outside := false
 	names := append([]string(nil), c08Names...)
 	r.Shuffle(len(names), func(i, j int) { names[i], names[j] = names[j], names[i] })
 	names = names[:3+r.Intn(4)]
+	if outside {
+		// a document outside every workspace folder takes part in the history (opened, edited,
+		// saved, closed like the others); closing it must also withdraw what was shown for it
+		names = append(names, "/outside/o.lua")
+		sc.Knobs["outside"] = true
+	}
 	sort.Strings(names)
 	exists := map[string]bool{}
 	for _, n := range names {
